@@ -348,6 +348,27 @@ func c12Corpus() []string {
 	}
 	sb.WriteString("            else:\n                continue\n        finally:\n            t += 1\n    return t\nbig([1, 0, 1])\n")
 	out = append(out, sb.String())
+	// jump operands and targets at the 16-bit boundary: the head of a loop (target of a backward jump) and the end of an
+	// if body (target of a forward jump) placed at every offset the padding menu can produce around 65535
+	extras := []string{"", "t", "-t", "t = t", "t\n    t", "t\n    -t", "-t\n    -t", "t = t\n    -t"}
+	for _, pads := range []int{6551, 6552, 6553} {
+		for _, ex := range extras {
+			var b strings.Builder
+			b.WriteString("def edge(n):\n    t = 0\n")
+			b.WriteString(strings.Repeat("    t = t + 1\n", pads))
+			if ex != "" {
+				b.WriteString("    " + ex + "\n")
+			}
+			tail := b.String()
+			out = append(out, tail+"    while n:\n        n = n - 1\n        t = t + 2\n    return t\nedge(0)\nedge(2)\n")
+			out = append(out, "def edge(n):\n    t = 0\n    if n:\n"+strings.Repeat("        t = t + 1\n", pads)+func() string {
+				if ex == "" {
+					return ""
+				}
+				return "        " + strings.ReplaceAll(ex, "\n    ", "\n        ") + "\n"
+			}()+"    else:\n        t = 5\n    for i in range(n):\n        t = t + i\n    return t\nedge(0)\nedge(3)\n")
+		}
+	}
 	return out
 }
 
